@@ -10,7 +10,10 @@ from harness.ns import QNAMES
 ID = "C15"
 LEAN_MODULES = ["Pypika.Props.C15"]
 THEOREMS = ["Pypika.C15.replaces_target", "Pypika.C15.others_untouched", "Pypika.C15.target_gone", "Pypika.C15.replace_map",
-            "Pypika.C15.coverage", "Pypika.C15.named_positions"]
+            "Pypika.C15.coverage", "Pypika.C15.named_positions",
+            "Pypika.C15.map_agree", "Pypika.C15.map_comp", "Pypika.C15.replace_eq_subst_partial", "Pypika.C15.replaceQ_eq_subst_partial",
+            "Pypika.C15.subst_build", "Pypika.C15.replace_build_partial", "Pypika.C15.other_tables_untouched",
+            "Pypika.C15.kf_setop", "Pypika.C15.kf_subquery_source"]
 AGREE = []
 TRUSTED = ["harness/effects.py: the ast pass producing the (walked, rewritten) attribute table per class"]
 RULE = ("every Term subclass as root and nested to depth 4 (random trees over fields of three tables, one of them the table "
@@ -110,6 +113,10 @@ def query_src(rng, cls):
             s = "%s.update(A).join(C).on(A.a == C.a).set(A.a, 1)" % qn
     else:
         s = "%s.from_(A).delete().where(%s)" % (qn, g.crit(1))
+        if cls == "postgresql" and rng.random() < 0.5:
+            # DELETE … USING: the table to replace as USING source, as target, or both
+            s = rng.choice(["%s.from_(C).delete().using(A).where(A.a == C.a)", "%s.from_(A).delete().using(C).where(A.a == C.a)",
+                            "%s.from_(A).delete().using(A).using(C).where(A.b == C.a)"]) % qn
     return s, feat
 
 
@@ -165,6 +172,21 @@ def examine(case):
     if before != after:
         res.findings.append({"sig": {"kind": "original-changed", "shape": sigfeat},
                              "what": "the original rendered %s before and %s after replace_table | %s" % (before, after, case["recipe"])})
+    # the model's replace_table (Lean `replaceT`, policy Pol.code) applied to the described ORIGINAL object must render
+    # what the real replace_table result renders
+    if rep is not None and not got.startswith("raises"):
+        try:
+            if isinstance(objA, ns.queries.QueryBuilder):
+                kw0 = {"dialect": objA.dialect}
+            elif isinstance(objA, ns.queries._SetOperation):
+                kw0 = {}
+            else:
+                kw0 = {"with_namespace": True, "quote_char": '"', "secondary_quote_char": "'"}
+            res.requests.append(({"op": "replace", "ctx": describe.d_ctx(kw0), "term": describe.describe(objA),
+                                  "a": describe.d_tref(envA["A"]), "b": describe.d_tref(envA["B"])}, {"sql": got},
+                                 "model replaceT(original) vs real replace_table"))
+        except Unsupported as ex:
+            res.skipped = str(ex)[:40]
     # the rebuilt object is also what the model renders
     if rep is not None and not got.startswith("raises"):
         try:
